@@ -129,7 +129,7 @@ AllFlags == {"closedRes", "closedMol", "resnameIgnored", "molNameIgnored", "spli
              "startIdxIgnoresName", "startNoMolKeyError", "startNameIgnored", "ligIdxIgnoresName", "ligNoTemplate",
              "splitLosesBuild", "ligWrongMol"}
 SingleDevs == {{f} : f \in AllFlags}
-AllOK == MolListUnchanged /\ Correct
+AllOK == ErrOK /\ MolListUnchanged /\ Correct
 Refute(f) == (dev = {f}) => AllOK
 Refute_closedRes == Refute("closedRes")
 Refute_closedMol == Refute("closedMol")
